@@ -29,7 +29,7 @@ class Gen:
         self.variant = rng.randrange(4) if variant is None else variant
         self.final_reads = final_reads
         self.kv_gates = kv_gates
-        self.gates = gates or (GATES_MEMBERSHIP + (["kv:local"] if kv_gates else []) + (["ns:enter"] if ns_gates else []))
+        self.gates = gates or (GATES_MEMBERSHIP + (["kv:local"] if kv_gates else []) + (["ns:loaded"] if ns_gates == "loaded" else ["ns:enter"] if ns_gates else []))
 
     def make(self, name):
         rng = self.rng
@@ -204,10 +204,31 @@ class Translator:
         self.op_entry_dead = {}
         self.pgate = {}
         self.read_done = {}
+        self.loaded, self.pnode, self.read_line, self.touch = {}, {}, {}, {}
         self.last_sur = getattr(self, "last_sur", {})
         self.acked = []       # acknowledged client operations of this scenario, in order
         self.lines.append({"act": "Reset", "sid": self.sid, "lay": {"npos": self.nrank, "kpos": self.krank}})
         self.meta.append((self.sid, -1, "begin " + ev.get("name", "")))
+
+    def lock_target(self, op, kind, pgate, at):
+        """the node whose lock word the operation loaded at its ns:loaded park (line index at): 1-based node index or None"""
+        if kind == "join":
+            return self.pnode.get(op)
+        if kind != "leave" or at >= len(self.lines):
+            return None
+        me = self.opnode.get(op, 0)
+        # the successor the leaver read: recorded on the line of its LeaveRead step (the park line itself or an earlier one)
+        k = self.read_line.get(op, at)
+        succ = (self.lines[k].get("succ") or [])
+        sc = succ[me - 1][0] if me and succ and succ[me - 1] else 0
+        if not me or not sc:
+            return None
+        succ_first = self.nrank[me - 1] > self.nrank[sc - 1]
+        if pgate == "leave:attempt":
+            return sc if succ_first else me
+        if pgate == "leave:lock2":
+            return me if succ_first else sc
+        return None
 
     def state(self, st):
         N, K = len(self.nrank), len(self.krank)
@@ -234,6 +255,26 @@ class Translator:
     def add(self, ev, rec):
         self.prev_state = ev["state"]
         rec.update(self.state(ev["state"]))
+        if getattr(self, "_early", False):
+            if rec.get("act") in ("JoinLock", "LeaveFirst", "LeaveSecond"):
+                rec["early"] = True
+            self._early = False
+        # nodes whose lock word this step may have written: those whose state changed, and the targets of a lock attempt (a refused
+        # RequestToLeave takes the lock and gives it back within the step)
+        prev = self.lines[-1] if self.lines and self.lines[-1].get("sid") == self.sid and self.lines[-1].get("st") else None
+        t = {i + 1 for i, v in enumerate(rec["st"]) if prev is None or prev["st"][i] != v}
+        op = getattr(self, "_cur_op", None)
+        if rec.get("act") == "JoinLock" and self.pnode.get(op):
+            t.add(self.pnode[op])
+        if rec.get("act") in ("LeaveFirst", "LeaveSecond", "LeaveReadFirst") and op in self.opnode:
+            me = self.opnode[op]
+            src = self.lines[self.read_line[op]] if op in self.read_line and self.read_line[op] < len(self.lines) else rec
+            succ = src.get("succ") or []
+            t.add(me)
+            if succ and succ[me - 1]:
+                t.add(succ[me - 1][0])
+        self.touch[len(self.lines)] = t
+        self._cur_op = None
         rec["sid"] = self.sid
         rec.setdefault("n", 0)
         self.lines.append(rec)
@@ -245,8 +286,11 @@ class Translator:
             return self.add(ev, {"act": "Create", "n": self.nidx[ev["n"]]})
         if do in ("stabilize", "checkpred", "fixfinger"):
             act = {"stabilize": "Stabilize", "checkpred": "CheckPred", "fixfinger": "Stutter"}[do]
+            if ev.get("to") == "skipped":       # not run (an operation hangs on a lock, or the node's periodic tasks have not started)
+                act = "Stutter"
             return self.add(ev, {"act": act, "n": self.nidx[ev["n"]]})
         op = ev["op"]
+        self._cur_op = op
         if do == "start":
             self.opkind[op] = ev["kind"]
             self.kinds[(self.sid, op)] = ev["kind"]
@@ -268,13 +312,25 @@ class Translator:
             if isinstance(ev.get("res"), str) and ev["res"].startswith("panic"):
                 self.panics.append((self.sid, op, kind, ev["res"]))
         sub = do != "start" and frm.startswith("ns:")      # resumed from a sub-gate
+        self._early = False
+        if sub and frm.startswith("ns:loaded") and op in self.loaded:
+            # resumed after the load of a lock word: its compare-and-swap fails if the word changed in between.  The acquisition may then be
+            # linearized at any recorded moment since the load at which the target node was locked (field early, see ChordKV "The lock word")
+            at, prior = self.loaded.pop(op)
+            tgt = self.lock_target(op, kind, self.pgate.get(op, ""), at)
+            if tgt:
+                self._early = (any(l.get("st") and l["st"][tgt - 1] != "Active" for l in self.lines[at:]) or
+                               any(tgt in self.touch.get(k, ()) for k in range(at + 1, len(self.lines))))
         if sub:
             frm = self.pgate.get(op, "")
+        if to.startswith("ns:loaded"):
+            self.loaded[op] = (len(self.lines), None)       # index of the line this park is about to add
         if to.startswith("ns:"):
             # parked before a lifecycle transition.  On the leave path the first such park after leave:attempt comes after the
             # leaver has read its predecessor / successor pointers: that is the specification's LeaveRead step.
             if kind == "leave" and frm == "leave:attempt" and not self.read_done.get(op):
                 self.read_done[op] = True
+                self.read_line[op] = len(self.lines)
                 return self.add(ev, {"act": "LeaveRead", "n": self.opnode.get(op, 0)})
             if kind == "join" and getattr(self, "prev_state", None) is not None:
                 # parked inside RequestToJoin, holding the handling node's surrogateMu: the snapshot cannot read that node's guarded
@@ -287,6 +343,8 @@ class Translator:
             self.pgate[op] = to
             return self.add(ev, {"act": "LeaveFirst", "n": self.opnode.get(op, 0)})
         self.pgate[op] = to
+        if to == "rtj:lock" and tonode in self.nidx:
+            self.pnode[op] = self.nidx[tonode]
         if to == "blocked":
             self.issues.append("operation %s blocked at step %s of scenario %s" % (op, ev.get("i"), self.sid))
             return self.add(ev, {"act": "Unknown"})
@@ -426,6 +484,9 @@ def validate(ck, tr, fixpred=False, fixleave=False, fixwrap=False, timeout=900, 
         cfg = cfg.replace("FixWrap = FALSE", "FixWrap = TRUE")
     if fixdead:
         cfg = cfg.replace("FixDead = FALSE", "FixDead = TRUE")
+    import ringcheck as _rc
+    if _rc.CODE_FIXADOPT:
+        cfg = cfg.replace("FixAdopt = FALSE", "FixAdopt = TRUE")
     r = ck.tlc("Trace_ChordKV", cfg, files={"trace.ndjson": text}, workers=1, timeout=timeout)
     viol = [x for x in r.printed if x["t"] == "viol"]
     div = [x for x in r.printed if x["t"] in ("div", "opdiv")]
@@ -570,6 +631,7 @@ CONSTANTS
   FixLeave = %(fixleave)s
   FixWrap = %(fixwrap)s
   FixDead = %(fixdead)s
+  FixAdopt = %(fixadopt)s
   MaxTry = 2
   TrackCov = %(trackcov)s
   Goal = "%(goal)s"
@@ -615,11 +677,13 @@ GOALS = ["join-refused-busy", "join-refused-pred-unsettled", "join-refused-wrong
 
 
 def mc_cfg(fixpred, fixleave, fixwrap=False, lay="Lay4", init="{1, 2, 4}", joiners="{3}", leavers="{2}", maxops=2, invs=ALL_INVS,
-           goal=None, opkinds='{"put", "get"}', fixdead=None):
+           goal=None, opkinds='{"put", "get"}', fixdead=None, fixadopt=None):
+    import ringcheck
     if fixdead is None:
-        import ringcheck
         fixdead = ringcheck.CODE_FIXDEAD
-    return MC_CFG % dict(fixdead="TRUE" if fixdead else "FALSE", trackcov="TRUE" if goal else "FALSE", goal=goal or "none", opkinds=opkinds, fixpred="TRUE" if fixpred else "FALSE", fixleave="TRUE" if fixleave else "FALSE", fixwrap="TRUE" if fixwrap else "FALSE", lay=lay, init=init, joiners=joiners, leavers=leavers, maxops=maxops, invs=invs)
+    if fixadopt is None:
+        fixadopt = ringcheck.CODE_FIXADOPT
+    return MC_CFG % dict(fixadopt="TRUE" if fixadopt else "FALSE", fixdead="TRUE" if fixdead else "FALSE", trackcov="TRUE" if goal else "FALSE", goal=goal or "none", opkinds=opkinds, fixpred="TRUE" if fixpred else "FALSE", fixleave="TRUE" if fixleave else "FALSE", fixwrap="TRUE" if fixwrap else "FALSE", lay=lay, init=init, joiners=joiners, leavers=leavers, maxops=maxops, invs=invs)
 
 
 def findings_from(tr, viol, div, quiet, scenarios):
